@@ -77,7 +77,11 @@ var sizes = []int{1, 1, 2, 2, 3, 4, 5, 7, 8, 16, 31, 64, 100, 257, 1000}
 
 func genLimitCase(r *vlib.Rng, out *vlib.Out) {
 	max := vlib.Pick(r, []int{0, 1, 1, 2, 2, 3, 3, 5, 8})
-	out.Line("new limit %d", max)
+	if k := vlib.Pick(r, limKinds); k == "ptr" {
+		out.Line("new limit %d", max)
+	} else {
+		out.Line("new limit %d kind=%s", max, k)
+	}
 	borrowed := 0
 	get := func() {
 		out.Line("get %d", r.Intn(nThreads))
@@ -259,6 +263,13 @@ func gen(tier string, out *vlib.Out) {
 		// maxTokens successful Gets at quiescence (black-box); 2^31-1 is the largest value inside the quantifier
 		"new limit 2147483647\nget 0\nget 1\nput 0\nget 2\nput 1\nput 2\nget 3\nput 3",
 		"new limit 65536\nget 0\nget 1\nput 0\nput 1\nget 2",
+		// legitimately borrowed values that ARE the zero value of T: a Put that inspects the value must still return the token
+		"new limit 2 kind=int0\nget 0\nget 1\nget 2\nput 0\nput 1\nget 0\nget 1\nget 2\nput 0\nput 0\nget 3\nget 3\nget 3",
+		"new limit 1 kind=unit\nget 0\nput 0\nget 1\nput 1\nget 0\nget 1",
+		"new limit 3 kind=str0\nget 0\nget 0\nget 0\nput 1\nput 1\nput 1\nget 2\nget 2\nget 2\nget 2",
+		"new limit 2 kind=val\nget 0\nput 0\nget 1\nget 1\nget 1\nput 0\nput 0\nget 2\nget 2\nget 2",
+		"new limitstress max=2 g=6 iters=200 kind=int0",
+		"new limitstress max=3 g=8 iters=200 kind=unit",
 		"new limitstress max=300 g=8 iters=100",
 		"new limitstress max=70000 g=4 iters=100",
 		"new limitstress max=1 g=8 iters=400",
@@ -290,7 +301,11 @@ func gen(tier string, out *vlib.Out) {
 		if g <= max && r.Chance(80) { // contention needs more goroutines than tokens
 			g = vlib.Pick(r, []int{max + 1, 2*max + 1, 16})
 		}
-		out.Line("new limitstress max=%d g=%d iters=%d", max, g, iters*vlib.Pick(r, []int{300, 1000, 2000}))
+		if k := vlib.Pick(r, limKinds); k == "ptr" {
+			out.Line("new limitstress max=%d g=%d iters=%d", max, g, iters*vlib.Pick(r, []int{300, 1000, 2000}))
+		} else {
+			out.Line("new limitstress max=%d g=%d iters=%d kind=%s", max, g, iters*vlib.Pick(r, []int{300, 1000, 2000}), k)
+		}
 	}
 	// first-use races: every round starts on a FRESH instance that nothing has touched yet
 	nSF := 12
@@ -362,11 +377,68 @@ func (w *workers) do(t int, f func()) (p string, finished bool) {
 
 type obj struct{ id int64 }
 
+// limIface hides the element type of a LimitPool: the bookkeeping of C14 must not depend on what the
+// pooled values are, in particular not on whether a legitimately borrowed value happens to be T's zero
+// value (kinds int0, unit, str0) or a non-nil pointer (kind ptr).
+type limIface interface {
+	Get() bool // a successful Get remembers the borrowed value
+	PutLast()  // hands the most recently borrowed value back
+	Borrowed() int
+	Tokens() int
+}
+
+type limOf[T any] struct {
+	p        *syncx.LimitPool[T]
+	borrowed []T
+}
+
+func (l *limOf[T]) Get() bool {
+	x, ok := l.p.Get()
+	if ok {
+		l.borrowed = append(l.borrowed, x)
+	}
+	return ok
+}
+func (l *limOf[T]) PutLast() {
+	x := l.borrowed[len(l.borrowed)-1]
+	l.borrowed = l.borrowed[:len(l.borrowed)-1]
+	l.p.Put(x)
+}
+func (l *limOf[T]) Borrowed() int { return len(l.borrowed) }
+func (l *limOf[T]) Tokens() int   { return int(l.p.VerifTokens()) }
+
+// newLim builds a LimitPool of the given element kind; `created` counts factory calls
+func newLim(kind string, max int, created *atomic.Int64) limIface {
+	switch kind {
+	case "", "ptr":
+		return &limOf[*obj]{p: syncx.NewLimitPool[*obj](max, func() *obj { return &obj{id: created.Add(1)} })}
+	case "int0":
+		return &limOf[int]{p: syncx.NewLimitPool[int](max, func() int { created.Add(1); return 0 })}
+	case "unit":
+		return &limOf[struct{}]{p: syncx.NewLimitPool[struct{}](max, func() struct{} { created.Add(1); return struct{}{} })}
+	case "str0":
+		return &limOf[string]{p: syncx.NewLimitPool[string](max, func() string { created.Add(1); return "" })}
+	case "val":
+		return &limOf[obj]{p: syncx.NewLimitPool[obj](max, func() obj { return obj{id: created.Add(1) - 1} })} // the first object is the zero obj
+	}
+	panic("limit kind " + kind)
+}
+
+var limKinds = []string{"ptr", "ptr", "int0", "unit", "str0", "val"}
+
+func kindOf(w []string) string {
+	for _, x := range w {
+		if strings.HasPrefix(x, "kind=") {
+			return x[len("kind="):]
+		}
+	}
+	return "ptr"
+}
+
 type limitCase struct {
-	p        *syncx.LimitPool[*obj]
-	created  *atomic.Int64
-	borrowed []*obj
-	max      int
+	p       limIface
+	created *atomic.Int64
+	max     int
 }
 
 type segState struct {
@@ -457,12 +529,23 @@ func (sc *segCase) dump() string {
 
 // limitStress repeats the scenario (fresh pool each round) until a round shows an anomaly, at most
 // `rounds` times, and reports the last round: the races it looks for are probabilistic.
-func limitStress(max, g, iters int, seed uint64, st *stats) string {
+func limitStress(kind string, max, g, iters int, seed uint64, st *stats) string {
 	const rounds = 3
 	var line string
 	for r := 0; r < rounds; r++ {
 		var bad bool
-		line, bad = limitStressRound(max, g, iters, seed+uint64(r)*977, st)
+		switch kind {
+		case "int0":
+			line, bad = limitStressRound[int](max, g, iters, seed+uint64(r)*977, st, func(*atomic.Int64) int { return 0 })
+		case "unit":
+			line, bad = limitStressRound[struct{}](max, g, iters, seed+uint64(r)*977, st, func(*atomic.Int64) struct{} { return struct{}{} })
+		case "str0":
+			line, bad = limitStressRound[string](max, g, iters, seed+uint64(r)*977, st, func(*atomic.Int64) string { return "" })
+		case "val":
+			line, bad = limitStressRound[obj](max, g, iters, seed+uint64(r)*977, st, func(c *atomic.Int64) obj { return obj{id: c.Add(1) - 1} })
+		default:
+			line, bad = limitStressRound[*obj](max, g, iters, seed+uint64(r)*977, st, func(c *atomic.Int64) *obj { return &obj{id: c.Add(1)} })
+		}
 		if bad {
 			break
 		}
@@ -470,9 +553,9 @@ func limitStress(max, g, iters int, seed uint64, st *stats) string {
 	return line
 }
 
-func limitStressRound(max, g, iters int, seed uint64, st *stats) (string, bool) {
+func limitStressRound[T any](max, g, iters int, seed uint64, st *stats, mk func(*atomic.Int64) T) (string, bool) {
 	var created atomic.Int64
-	p := syncx.NewLimitPool[*obj](max, func() *obj { return &obj{id: created.Add(1)} })
+	p := syncx.NewLimitPool[T](max, func() T { return mk(&created) })
 	var outstanding, hw, succ, fail atomic.Int64
 	var panicked atomic.Value
 	var wg sync.WaitGroup
@@ -517,7 +600,7 @@ func limitStressRound(max, g, iters int, seed uint64, st *stats) (string, bool) 
 	// quiescent, everything put back: exactly max further Gets must succeed, the next must fail
 	finalGets := 0
 	extra := "ok"
-	var got []*obj
+	var got []T
 	for i := 0; i < max+1; i++ {
 		x, ok := p.Get()
 		if ok {
@@ -999,19 +1082,18 @@ func run(ops []string, out *lineOut, st *stats) {
 			case "limit":
 				max, _ := strconv.Atoi(w[2])
 				c := &limitCase{max: max, created: &atomic.Int64{}}
-				p := vlib.Catch(func() {
-					c.p = syncx.NewLimitPool[*obj](max, func() *obj { return &obj{id: c.created.Add(1)} })
-				})
+				st.Kinds["limit/"+kindOf(w)]++
+				p := vlib.Catch(func() { c.p = newLim(kindOf(w), max, c.created) })
 				if p != "" {
 					out.Line("%s => %s", line, p)
 					continue
 				}
 				lc = c
 				st.MaxTokens[w[2]]++
-				out.Line("%s => ok tokens=%d created=%d", line, lc.p.VerifTokens(), lc.created.Load())
+				out.Line("%s => ok tokens=%d created=%d", line, lc.p.Tokens(), lc.created.Load())
 			case "limitstress":
 				st.MaxTokens[strconv.Itoa(kv(w, "max"))]++
-				out.Line("%s => %s", line, limitStress(kv(w, "max"), kv(w, "g"), kv(w, "iters"), seed+uint64(n), st))
+				out.Line("%s => %s", line, limitStress(kindOf(w), kv(w, "max"), kv(w, "g"), kv(w, "iters"), seed+uint64(n), st))
 			case "seg":
 				size, _ := strconv.Atoi(w[2])
 				c := &segCase{size: size, segs: map[int]*segState{}, holds: map[string]int{}, at: map[string][]int{}, byIdx: map[int]map[string]bool{}}
@@ -1043,12 +1125,11 @@ func run(ops []string, out *lineOut, st *stats) {
 		switch {
 		case lc != nil && (w[0] == "get" || w[0] == "put"):
 			t, _ := strconv.Atoi(w[1])
-			before := fmt.Sprintf("limit max=%d tokens=%d borrowed=%d", lc.max, lc.p.VerifTokens(), len(lc.borrowed))
+			before := fmt.Sprintf("limit max=%d tokens=%d borrowed=%d", lc.max, lc.p.Tokens(), lc.p.Borrowed())
 			var res string
 			if w[0] == "get" {
-				var x *obj
 				var ok bool
-				p, fin := wk.do(t, func() { x, ok = lc.p.Get() })
+				p, fin := wk.do(t, func() { ok = lc.p.Get() })
 				switch {
 				case !fin:
 					hang(out, line)
@@ -1056,16 +1137,11 @@ func run(ops []string, out *lineOut, st *stats) {
 					res = p
 				default:
 					res = strconv.FormatBool(ok)
-					if ok {
-						lc.borrowed = append(lc.borrowed, x)
-					}
 				}
-			} else if len(lc.borrowed) == 0 {
+			} else if lc.p.Borrowed() == 0 {
 				res = "skip"
 			} else {
-				x := lc.borrowed[len(lc.borrowed)-1]
-				lc.borrowed = lc.borrowed[:len(lc.borrowed)-1]
-				p, fin := wk.do(t, func() { lc.p.Put(x) })
+				p, fin := wk.do(t, func() { lc.p.PutLast() })
 				switch {
 				case !fin:
 					hang(out, line)
@@ -1076,14 +1152,14 @@ func run(ops []string, out *lineOut, st *stats) {
 				}
 			}
 			st.Results[w[0]+"/"+res]++
-			after := fmt.Sprintf("limit max=%d tokens=%d borrowed=%d", lc.max, lc.p.VerifTokens(), len(lc.borrowed))
+			after := fmt.Sprintf("limit max=%d tokens=%d borrowed=%d", lc.max, lc.p.Tokens(), lc.p.Borrowed())
 			if before != after || res == "false" || res == "skip" {
 				seen[before+"|"+w[0]] = struct{}{}
 			}
 			if res == "skip" {
 				out.Line("%s => skip", line)
 			} else {
-				out.Line("%s => %s tokens=%d created=%d", line, res, lc.p.VerifTokens(), lc.created.Load())
+				out.Line("%s => %s tokens=%d created=%d", line, res, lc.p.Tokens(), lc.created.Load())
 			}
 		case sc != nil && w[0] == "idx":
 			kb := unhx(w[1])
